@@ -43,7 +43,7 @@ def generate(rng, tier):
             steps.append({'id': sid, 'op': 'relay', 'kind': kind, 'seed': rng.randrange(1 << 30),
                           'framing': rng.choice(['new', 'new', 'new2', 'new5', 'old', 'old2', 'old4', 'partial', 'partial', 'partial5', 'indeterminate']),
                           'size': rng.choice([0, 1, 5, 100, 191, 192, 600, 2000, 9000]),
-                          'keyalg': rng.choice(['ed25519', 'p256', 'p384', 'p521', 'secp256k1', 'cv25519', 'ecdh_p256', 'rsa2048', 'dsa2048']),
+                          'keyalg': rng.choice(['ed25519', 'p256', 'p384', 'p521', 'secp256k1', 'cv25519', 'ecdh_p256', 'rsa2048', 'dsa2048', 'elg2048', 'elg1024']),
                           'usage_octet': rng.choice([0, 254, 254, 255]), 's2k': rng.choice([0, 1, 3, 3]),
                           'nsub': rng.choice([0, 1, 2, 4]), 'trailing': bytes(rng.randrange(256) for _ in range(rng.choice([0, 2, 9]))).hex()})
         else:
